@@ -47,5 +47,9 @@ for f in F:
     if f['commit'].startswith('HEAD'):
         for l in head:
             if 'ActiveTestResp.IDecode refused' in l: f['commit']=l.split()[0]
+for k in K:
+    k['line']=f"KNOWN-FINDING: property={k['property']} {k['key']} — {k['what']}"
+for f in F:
+    f['line']=f"fixed: property={f['property']} {f['commit']} {f['what']} (finding keys: {f['key']})"
 json.dump(dict(findings=K+F),open('/verif/known_findings.json','w'),indent=1,ensure_ascii=False)
 print(len(K),'known',len(F),'fixed')
